@@ -114,7 +114,7 @@ pub fn run(tier: Tier) -> i32 {
         run.merge_violations(vs);
     }
     // ---------------------------------------------------------------- (b) choice of location
-    let sw = refdet::sweep(&corpus::build(tier), &crate::dets::all(), refdet::Mode::LocationOnly);
+    let (sw, _sum, _samples) = refdet::sweep_stream(tier, &crate::dets::all(), refdet::Mode::LocationOnly, &|_| true);
     for e in &sw.machinery {
         run.machinery(e.clone());
     }
